@@ -3,6 +3,9 @@ import XalanModel.Containers.XMapProofs
 import XalanModel.Containers.DequeProofs
 import XalanModel.Containers.XListProofs
 import XalanModel.Containers.DOMStringProofs
+import XalanModel.Containers.ObjCacheProofs
+import XalanModel.Containers.StringPoolProofs
+import XalanModel.Containers.BitmapProofs
 /-!
 # C20 — Xalan's containers behave like their standard models
 
@@ -546,6 +549,50 @@ theorem list_clear_refines (l : XL α) (next : Nat) (h : XL.Inv l next) :
   obtain ⟨i, hl, hf⟩ := XL.clear_spec l next h
   exact ⟨i, by simp [XL.toList, hl], hf⟩
 
+/-- operations addressed through iterators (node ids), as a client uses the list -/
+inductive LOp (α : Type) where
+  | insert (pos : LPos) (x : α)      -- also push_back (`endPos`) / push_front (`beginPos`)
+  | erase (id : Nat)                 -- also pop_front / pop_back
+  | clear
+
+def XL.runOps : List (LOp α) → XL α → Nat → Option (XL α × Nat)
+  | [], l, n => some (l, n)
+  | .insert pos x :: ops, l, n => (l.constructNode n x pos).bind fun r => XL.runOps ops r.1 r.2.1
+  | .erase id :: ops, l, n => (l.erase (.node id)).bind fun l' => XL.runOps ops l' n
+  | .clear :: ops, l, n => XL.runOps ops l.clear n
+
+/-- **C20 (list), history form.** Any history of insert / erase / clear through valid iterators keeps the
+node invariant (live node ids distinct, free list duplicate-free and disjoint from the live nodes, all ids
+below the shared allocation counter, which never decreases).  `_partial`: `splice` between two lists and
+`swap` are in the model and in the correspondence run, not in this alphabet (a `swap` exchanges the two
+states, so each side keeps the other's invariant). -/
+theorem list_history_partial (ops : List (LOp α)) (l : XL α) (n : Nat) (h : XL.Inv l n) (l' : XL α) (n' : Nat)
+    (hr : XL.runOps ops l n = some (l', n')) : XL.Inv l' n' ∧ n ≤ n' := by
+  induction ops generalizing l n with
+  | nil => simp only [XL.runOps, Option.some.injEq, Prod.mk.injEq] at hr; rw [← hr.1, ← hr.2]; exact ⟨h, Nat.le_refl _⟩
+  | cons op ops ih =>
+    cases op with
+    | insert pos x =>
+      simp only [XL.runOps] at hr
+      cases hi : l.touch.indexOf pos with
+      | none => simp [XL.constructNode, hi] at hr
+      | some i =>
+        obtain ⟨l1, n1, id, e, inv1, hn, _, _⟩ := XL.constructNode_spec l n x pos i h hi
+        rw [e] at hr
+        obtain ⟨i2, h2⟩ := ih l1 n1 inv1 hr
+        exact ⟨i2, Nat.le_trans hn h2⟩
+    | erase id =>
+      simp only [XL.runOps] at hr
+      cases hi : l.indexOf (.node id) with
+      | none => simp [XL.erase, hi] at hr
+      | some i =>
+        obtain ⟨l1, e, inv1, _⟩ := XL.erase_spec l n id i h hi
+        rw [e] at hr
+        exact ih l1 n inv1 hr
+    | clear =>
+      simp only [XL.runOps] at hr
+      exact ih l.clear n (XL.clear_spec l n h).1 hr
+
 /-! ## XalanDOMString -/
 
 
@@ -768,5 +815,142 @@ theorem domstring_append_npos_as_written_counterexample :
     ((DStr.mk ⟨[7, 0], 2⟩ 1).appendSub (DStr.mk ⟨[1, 2, 3, 4, 0], 5⟩ 4) 1 none).map (fun s => (s.size, s.chars)) =
       some (4, [7, 2, 3, 4]) := by
   decide
+
+/-! ## XalanSet (= `XalanMap<Value, bool>` with delegating members): refinement to a duplicate-free key list -/
+
+theorem lookup_isSome_iff {κ ν : Type} [DecidableEq κ] (l : List (κ × ν)) (k : κ) :
+    (l.lookup k).isSome = decide (k ∈ l.map (·.1)) := by
+  induction l with
+  | nil => simp
+  | cons p t ih =>
+    obtain ⟨a, b⟩ := p
+    by_cases h : k = a
+    · simp [List.lookup_cons, h]
+    · have h2 : (k == a) = false := by simpa using h
+      simp only [List.lookup_cons, h2, ih, List.map_cons, List.mem_cons, h, false_or]
+
+/-- `insert(v)`, `erase(v)`, `count(v)`, `clear()` of a set over a map satisfying the invariant: the keys in
+iteration order behave like a duplicate-free list (first insertion order). -/
+theorem set_step_refines {κ : Type} [DecidableEq κ] (hash : κ → Nat) (m : XMap κ Bool) (h : XMap.Inv hash m) (k : κ) :
+    (∃ m', XMap.insert hash m k true = some m' ∧ XMap.Inv hash m' ∧
+        m'.toList.map (·.1) = if k ∈ m.toList.map (·.1) then m.toList.map (·.1) else m.toList.map (·.1) ++ [k]) ∧
+    (∃ m' c, XMap.erase hash m k = some (m', c) ∧ XMap.Inv hash m' ∧
+        m'.toList.map (·.1) = (m.toList.map (·.1)).filter (· != k) ∧ c = if k ∈ m.toList.map (·.1) then 1 else 0) ∧
+    ((XMap.find hash m k).map (·.isSome) = some (decide (k ∈ m.toList.map (·.1)))) ∧
+    (m.toList.map (·.1)).Nodup := by
+  refine ⟨?_, ?_, ?_, ?_⟩
+  · obtain ⟨m', e, i, t⟩ := XMap.insert_spec h k true
+    refine ⟨m', e, i, ?_⟩
+    have hl := lookup_isSome_iff m.toList k
+    rw [t]
+    cases hlk : m.toList.lookup k with
+    | some v => rw [hlk] at hl; have : k ∈ m.toList.map (·.1) := by simpa using hl.symm
+                simp [this]
+    | none => rw [hlk] at hl; have : k ∉ m.toList.map (·.1) := by simpa using hl.symm
+              simp [this]
+  · obtain ⟨m', c, e, i, t, hc⟩ := XMap.erase_spec h k
+    refine ⟨m', c, e, i, ?_, ?_⟩
+    · rw [t, List.filter_map]; rfl
+    · rw [hc, lookup_isSome_iff]; simp
+  · have := XMap.find_lookup (hash := hash) h k
+    cases hf : XMap.find hash m k with
+    | none => simp [hf] at this
+    | some r =>
+      simp only [hf, Option.map_some, Option.some.injEq] at this ⊢
+      rw [← lookup_isSome_iff, ← this]; cases r <;> rfl
+  · have : m.toList.map (·.1) = m.entries.map (·.key) := by simp [XMap.toList, List.map_map, Function.comp_def]
+    rw [this]; exact h.keys_nodup
+
+/-! ## XalanObjectCache -/
+
+/-- **get**: the object handed out is held by nobody else, is cleared (new, or reset by `release`), and
+the bookkeeping invariant holds with it added to the held objects. -/
+theorem objcache_get_refines (c : OCache α) (held : List Nat) (h : OCache.Inv c held) :
+    (c.get).2 ∉ held ∧ OCache.Inv (c.get).1 ((c.get).2 :: held) ∧ (c.get).1.objs[(c.get).2]? = some [] :=
+  OCache.get_spec c held h
+
+/-- **release** of a held object and use of a held object keep the invariant. -/
+theorem objcache_release_put_refines (c : OCache α) (held : List Nat) (id : Nat) (x : α) (h : OCache.Inv c held)
+    (hid : id ∈ held) : OCache.Inv (c.release id) (held.erase id) ∧ OCache.Inv (c.put id x) held :=
+  ⟨OCache.release_spec c held id h hid, OCache.put_spec c held id x h hid⟩
+
+inductive COp (α : Type) where
+  | get
+  | release (id : Nat)
+  | put (id : Nat) (x : α)
+
+/-- a client history: `release`/`put` only of objects it holds (the contract of the class) -/
+def OCache.runOps : List (COp α) → OCache α → List Nat → Option (OCache α × List Nat)
+  | [], c, held => some (c, held)
+  | .get :: ops, c, held => OCache.runOps ops (c.get).1 ((c.get).2 :: held)
+  | .release id :: ops, c, held => if id ∈ held then OCache.runOps ops (c.release id) (held.erase id) else none
+  | .put id x :: ops, c, held => if id ∈ held then OCache.runOps ops (c.put id x) held else none
+
+/-- **C20 (object cache).** After any client history from a fresh cache the held objects are pairwise
+distinct, disjoint from the available ones, and every available object is reset. -/
+theorem objcache_history (ops : List (COp α)) (c : OCache α) (held : List Nat) (h : OCache.Inv c held)
+    (c' : OCache α) (held' : List Nat) (hr : OCache.runOps ops c held = some (c', held')) : OCache.Inv c' held' := by
+  induction ops generalizing c held with
+  | nil => simp only [OCache.runOps, Option.some.injEq, Prod.mk.injEq] at hr; rw [← hr.1, ← hr.2]; exact h
+  | cons op ops ih =>
+    cases op with
+    | get => exact ih _ _ (OCache.get_spec c held h).2.1 hr
+    | release id =>
+      simp only [OCache.runOps] at hr
+      split at hr
+      · rename_i hid; exact ih _ _ (OCache.release_spec c held id h hid) hr
+      · cases hr
+    | put id x =>
+      simp only [OCache.runOps] at hr
+      split at hr
+      · rename_i hid; exact ih _ _ (OCache.put_spec c held id x h hid) hr
+      · cases hr
+
+/-! ## XalanDOMStringPool / XalanDOMStringHashTable -/
+
+/-- **get** of a non-empty string: the pooled object has exactly the requested characters; the pool
+(= list of distinct strings in order of first request) grows by it exactly when it was new; bucket
+invariant kept (every pooled string is in the bucket its hash selects, every bucket pointer is valid). -/
+theorem pool_get_refines (p : SPool) (h : SPool.Inv p) (cs : List Nat) (hcs : cs ≠ []) :
+    ∃ p' id, SPool.get p cs = some (p', some id) ∧ SPool.Inv p' ∧ p'.strings[id]? = some cs ∧
+      ((cs ∈ p.strings ∧ p' = p) ∨ (cs ∉ p.strings ∧ p'.strings = p.strings ++ [cs] ∧ id = p.strings.length)) :=
+  SPool.get_spec p h cs hcs
+
+/-- equal requests return the same pooled object -/
+theorem pool_get_canonical (p : SPool) (h : SPool.Inv p) (cs : List Nat) (hcs : cs ≠ []) (p1 : SPool) (id1 : Nat)
+    (h1 : SPool.get p cs = some (p1, some id1)) : SPool.get p1 cs = some (p1, some id1) :=
+  SPool.get_idempotent p h cs hcs p1 id1 h1
+
+theorem pool_new_clear_inv (n : Nat) (hn : 0 < n) (p : SPool) (h : SPool.Inv p) :
+    SPool.Inv (SPool.new n) ∧ SPool.Inv p.clear ∧ p.clear.strings = [] :=
+  ⟨SPool.new_inv n hn, (SPool.clear_inv p h).1, (SPool.clear_inv p h).2⟩
+
+/-! ## XalanBitmap -/
+
+/-- **set / clear / toggle** change exactly the addressed bit as read back by `isSet`, for every bit
+number (all others, in the same byte or another, are unchanged), and keep every unit a byte. -/
+theorem bitmap_refines (b : Bitmap) (bit : Nat) (h : Bitmap.Inv b) (hlt : bit / 8 < b.units.length) :
+    (∃ b', b.set bit = some b' ∧ Bitmap.Inv b' ∧ ∀ j, b'.isSet j = (b.isSet j).map fun x => x || decide (j = bit)) ∧
+    (∃ b', b.clear bit = some b' ∧ Bitmap.Inv b' ∧ ∀ j, b'.isSet j = (b.isSet j).map fun x => x && !decide (j = bit)) ∧
+    (∃ b', b.toggle bit = some b' ∧ Bitmap.Inv b' ∧ ∀ j, b'.isSet j = (b.isSet j).map fun x => x != decide (j = bit)) := by
+  have hk : bit % 8 < 8 := Nat.mod_lt _ (by omega)
+  refine ⟨?_, ?_, ?_⟩
+  · obtain ⟨b', e, i, _, hs⟩ := Bitmap.update_spec b bit (fun u => u ||| 2 ^ (bit % 8)) (fun x y => x || y) h hlt (by simp)
+      (fun u hu jj hj => ⟨(Bitmap.byte_ops u (bit % 8) jj hu hk hj).1, (Bitmap.byte_ops u (bit % 8) jj hu hk hj).2.2.2.1⟩)
+    exact ⟨b', e, i, hs⟩
+  · obtain ⟨b', e, i, _, hs⟩ := Bitmap.update_spec b bit (fun u => u &&& (255 - 2 ^ (bit % 8))) (fun x y => x && !y) h hlt (by simp)
+      (fun u hu jj hj => ⟨(Bitmap.byte_ops u (bit % 8) jj hu hk hj).2.1, (Bitmap.byte_ops u (bit % 8) jj hu hk hj).2.2.2.2.1⟩)
+    exact ⟨b', e, i, hs⟩
+  · obtain ⟨b', e, i, _, hs⟩ := Bitmap.update_spec b bit (fun u => u ^^^ 2 ^ (bit % 8)) (fun x y => x != y) h hlt (by simp)
+      (fun u hu jj hj => ⟨(Bitmap.byte_ops u (bit % 8) jj hu hk hj).2.2.1, (Bitmap.byte_ops u (bit % 8) jj hu hk hj).2.2.2.2.2⟩)
+    exact ⟨b', e, i, hs⟩
+
+/-- every bit below `m_size` has its byte (the vector has `(size + 8) / 8` units), and a new bitmap is all clear -/
+theorem bitmap_new (n bit : Nat) (hb : bit < n) :
+    Bitmap.Inv (Bitmap.new n) ∧ bit / 8 < (Bitmap.new n).units.length ∧ (Bitmap.new n).isSet bit = some false := by
+  have hl : bit / 8 < (n + 8) / 8 := by omega
+  have hl2 : bit / 8 < n / 8 + 1 := by omega
+  refine ⟨Bitmap.new_inv n, by simp [Bitmap.new]; omega, ?_⟩
+  simp [Bitmap.isSet, Bitmap.new, List.getElem?_replicate, hl2]
 
 end XalanModel.Props.C20
